@@ -1,7 +1,7 @@
 """Sidecar contracts for sigpyproc (keyed by file::qualname; loops by source-order ordinal + variable)."""
 from pvc.contract import Registry
 
-MODULES = ["kernels_bits", "bits", "kernels_stream", "kernels_moments", "race", "fileio"]
+MODULES = ["kernels_bits", "bits", "kernels_stream", "kernels_moments", "race", "fileio", "readers"]
 
 
 def load_all():
